@@ -390,13 +390,14 @@ def congr (chk : E2 → E2 → Bool) : E2 → E2 → Bool
   | .len f, .len f' => chk f f'
   | _, _ => false
 
-def check2 (sc : List (List String)) (sl : List Nat) : Nat → E2 → E2 → Bool
+/-- `leaf` = an additional sound oracle for sub-steps (instantiated with `oldOK sc`, the old single-source checker) -/
+def check2 (leaf : E2 → E2 → Bool) (sc : List (List String)) (sl : List Nat) : Nat → E2 → E2 → Bool
   | 0, a, b => a == b
   | fuel + 1, a, b =>
-    a == b || oldOK sc a b || congr (check2 sc sl fuel) a b || (cands sc sl a b).any (fun a' => check2 sc sl fuel a' b)
+    a == b || leaf a b || congr (check2 leaf sc sl fuel) a b || (cands sc sl a b).any (fun a' => check2 leaf sc sl fuel a' b)
 
-def checkTrace2 (sc : List (List String)) (sl : List Nat) (fuel : Nat) : List E2 → Bool
-  | a :: b :: rest => check2 sc sl fuel a b && checkTrace2 sc sl fuel (b :: rest)
+def checkTrace2 (leaf : E2 → E2 → Bool) (sc : List (List String)) (sl : List Nat) (fuel : Nat) : List E2 → Bool
+  | a :: b :: rest => check2 leaf sc sl fuel a b && checkTrace2 leaf sc sl fuel (b :: rest)
   | _ => true
 
 end Dask.RelExpr2
